@@ -16,14 +16,15 @@ from engine import tlc
 from engine.core import shard_map
 from engine.tlc import MachineryError
 
+BITS = {1: "ShownIsBest", 2: "DefaultIffNone", 4: "CorrectIff", 8: "ScoreIs", 16: "ResolveTotal"}
 CLAUSES = {"C01": {"ShownIsBest", "DefaultIffNone", "ResolveTotal", "unmatched-event"},
            "C02": {"CorrectIff"}, "C03": {"ScoreIs"}}
 FIELDS = {"C01": {"shown"}, "C02": {"correct"}, "C03": {"score"}}
 CFGS = {
     ("C01", "quick"): ["MC_Resolver_rank_q.cfg", "MC_Resolver_supp_q.cfg"],
     ("C01", "thorough"): ["MC_Resolver_rank_t.cfg", "MC_Resolver_rank3_t.cfg", "MC_Resolver_supp_t.cfg"],
-    ("C02", "quick"): ["MC_Resolver_correct_q.cfg"],
-    ("C02", "thorough"): ["MC_Resolver_correct_t.cfg", "MC_Resolver_supp_q.cfg"],
+    ("C02", "quick"): ["MC_Resolver_correct_q.cfg", "MC_Resolver_supp_q.cfg"],
+    ("C02", "thorough"): ["MC_Resolver_correct_t.cfg", "MC_Resolver_supp_t.cfg"],
     ("C03", "quick"): ["MC_Resolver_score_q.cfg"],
     ("C03", "thorough"): ["MC_Resolver_score_t.cfg", "MC_Resolver_score3_t.cfg"],
 }
@@ -85,9 +86,12 @@ def run(prop, tier, seed, ctx):
     ctx.cov["traces_validated_against_impl"] += len(traces)
     ctx.count(len(traces), ("trace:%d" % t["seed"] for t in traces if len(t["events"]) > 3))
     ctx.sample({"kind": "recorded history", "events": traces[0]["events"]})
-    for tid, pos, clause in rej:
-        if clause not in CLAUSES[prop]:
+    for tid, pos, mask in rej:
+        names = [n for b, n in BITS.items() if int(mask) & b] or ["unmatched-event"]
+        mine = [n for n in names if n in CLAUSES[prop]]
+        if not mine:
             continue
+        clause = "+".join(mine)
         t = traces[tid - 1]
         err = t["errors"][0].split(":")[0] if clause == "ResolveTotal" and t.get("errors") else ""
         ctx.violation("%s|trace|%s%s" % (prop, clause, "|" + err if err else ""),
